@@ -43,6 +43,8 @@ class Env:
         self.flags = []            # oracle probes that fired (never compared with the model)
         self.begun = []            # (tid, op) of every call begun so far, in time order
         self.ended = []            # (tid, op, length of the log when the call returned)
+        self.dep_begun = []        # refcount: (tid, k) of every dispose() begun on the k-th handle handed out
+        self.release_calls = []    # refcount: (tid, k) of every parent.release() made by a dispose() of handle k
 
     def emit(self, *ev):
         if self.ctl is not None:
@@ -164,11 +166,27 @@ class World:
             self.obj = D.MultipleAssignmentDisposable()
         elif kind == "refcount":
             self.obj = D.RefCountDisposable(self.items[0])
+            release = self.obj.release
+
+            def spy_release():
+                # a spy on the public method RefCountDisposable.release (harness code: no yield point, not traced):
+                # which dispose() of which handle called it -- the last one this thread began
+                tid = env.ctl.tid() if env.ctl is not None else 0
+                ks = [k for (t, k) in env.dep_begun if t == tid]
+                env.release_calls.append((tid, ks[-1] if ks else -1))
+                return release()
+            self.obj.release = spy_release
         else:
             raise ValueError(kind)
 
     def ident(self, x):
         return None if x is None else getattr(x, "ident", -1)
+
+    def is_dependent(self, h):
+        """refcount: is the handle a dependent (an InnerDisposable) rather than the inert plain Disposable()
+        that the property hands out once the resource is released?  Decided on the returned object's class."""
+        inner = getattr(type(self.obj), "InnerDisposable", None)
+        return inner is not None and isinstance(h, inner)
 
     def snapshot(self):
         """public state of the object, read through its public API (oracle input only)"""
@@ -234,8 +252,10 @@ class World:
                         t = env.ctl.me()
                         if t is not None:
                             t.skip = 1         # the handle's own lock acquisition is this same action
+                        env.dep_begun.append((env.ctl.tid(), op[1]))
                         self.handles[op[1]].dispose()
                 elif op[1] < len(self.handles):
+                    env.dep_begun.append((0, op[1]))
                     self.handles[op[1]].dispose()
             else:
                 raise ValueError(op)
@@ -493,6 +513,30 @@ def conc_correspondence(pid, kind, cases):
         gal.append((f"({ps}, {sc})", gal_clog(log)))
     return lib.correspondence(pid, f"conc_{kind}_", "Base.Prelude Core.Disposables Core.DispConc", ty,
                               model, "clog_eqb", gal, shard=400)
+
+
+def release_profile(world):
+    """refcount: number of parent.release() calls made on behalf of each handle, in hand-out order"""
+    prof = [0] * len(world.handles)
+    for (_, k) in world.env.release_calls:
+        if 0 <= k < len(prof):
+            prof[k] += 1
+    return prof
+
+
+def release_correspondence(pid, cases):
+    """cases: [(setup, progs, setup_steps, schedule, release profile)] -- Core/RefCountOnce.v rc_release_profile
+    (the ghost counter the theorem C27_release_at_most_once_per_dependent is about) under the same schedule"""
+    ty = "(list (list rop) * list nat * nat) * list nat"
+    model = ("(fun c : list (list rop) * list nat * nat => "
+             "rc_release_profile (fst (fst c)) (snd (fst c)) (snd c))")
+    gal = []
+    for (setup, progs, nsetup, sched, prof) in cases:
+        ps = glist([setup] + list(progs), lambda p: gal_hist("refcount", p))
+        sc = glist([0] * nsetup + list(sched), gnat)
+        gal.append((f"({ps}, {sc}, {gnat(len(prof))})", glist(prof, gnat)))
+    return lib.correspondence(pid, "conc_refcount_release_", "Base.Prelude Core.Disposables Core.DispConc "
+                              "Core.RefCountOnce", ty, model, "(list_eqb Nat.eqb)", gal, shard=400)
 
 
 def conc_model_show(pid, kind, setup, progs, nsetup, sched):
